@@ -43,7 +43,7 @@ func (s *State) clone() *State {
 const allocHeap = "$alloc"
 
 func heapSym(name string) string {
-	return "H_" + strings.ReplaceAll(sanitize(strings.ReplaceAll(name, "$", "S")), "__", "_")
+	return "H_" + strings.ReplaceAll(sanitize(strings.ReplaceAll(name, "$", "S")), "__", "_") + "_" + shortHash(name)[:4]
 }
 
 type HeapInfo struct {
@@ -59,6 +59,7 @@ func (x *Exec) heapInit(name string, s Sort) Term {
 		}
 	} else {
 		x.heapSorts[name] = s
+		x.allSorts[name] = s
 		x.heapOrder = append(x.heapOrder, name)
 	}
 	t := x.vc.named(heapSym(name)+"@0", s)
@@ -99,19 +100,58 @@ func (x *Exec) fieldHeap(structT types.Type, i int) (string, Sort) {
 
 func (x *Exec) ptrHeap(elem types.Type) (string, Sort) {
 	s := x.w.sortOf(elem)
-	return "P:" + sortID(s), arraySort(SRef, s)
+	return "P:" + canonType(elem), arraySort(SRef, s)
+}
+
+// canonType: canonical name of a Go type; two values can alias only if their types have the same name here.
+func canonType(t types.Type) string {
+	switch u := t.(type) {
+	case *types.Named:
+		if u.Obj().Pkg() == nil {
+			return u.Obj().Name()
+		}
+		return u.Obj().Pkg().Name() + "." + u.Obj().Name()
+	case *types.Basic:
+		switch u.Kind() {
+		case types.Uint8:
+			return "uint8"
+		case types.Int32:
+			return "int32"
+		}
+		return u.Name()
+	case *types.Pointer:
+		return "*" + canonType(u.Elem())
+	case *types.Slice:
+		return "[]" + canonType(u.Elem())
+	case *types.Array:
+		return fmt.Sprintf("[%d]%s", u.Len(), canonType(u.Elem()))
+	case *types.Map:
+		return "map[" + canonType(u.Key()) + "]" + canonType(u.Elem())
+	case *types.Chan:
+		return "chan " + canonType(u.Elem())
+	case *types.Struct:
+		return "struct" + shortHash(typeKey(u))
+	case *types.Interface:
+		if u.NumMethods() == 0 {
+			return "any"
+		}
+		return "iface" + shortHash(typeKey(u))
+	case *types.Signature:
+		return "func" + shortHash(typeKey(u))
+	}
+	return shortHash(typeKey(t))
 }
 
 func (x *Exec) mapHeaps(m *types.Map) (mv, mp string, mvS, mpS Sort, ks, vs Sort) {
 	ks = x.w.sortOf(m.Key())
 	vs = x.w.sortOf(m.Elem())
-	id := sortID(ks) + "," + sortID(vs)
+	id := canonType(m.Key()) + "," + canonType(m.Elem())
 	return "MV:" + id, "MP:" + id, arraySort(SRef, arraySort(ks, vs)), arraySort(SRef, arraySort(ks, SBool)), ks, vs
 }
 
 func (x *Exec) sliceHeap(elem types.Type) (string, Sort) {
 	s := x.w.sortOf(elem)
-	return "SE:" + sortID(s), arraySort(SRef, arraySort(SBV(64), s))
+	return "SE:" + canonType(elem), arraySort(SRef, arraySort(SBV(64), s))
 }
 
 // ---- addresses
